@@ -2,7 +2,7 @@
    Property theorems only; each is closed by [exact]/[apply] of a lemma from Proofs/. *)
 From Coq Require Import List Arith ZArith Bool Permutation.
 From TC.Model Require Import SliceOps.
-From TC.Proofs Require Import SliceOpsProofs SliceSetProofs.
+From TC.Proofs Require Import SliceOpsProofs SliceSetProofs SliceFilterSt.
 Import ListNotations.
 
 Section C12.
@@ -45,6 +45,18 @@ Section C12.
       Some (filter keep l ++ repeat zero (len - length (filter keep l)) ++ skipn len b,
             length (filter keep l)).
   Proof. exact (filter_spec zero keep b len). Qed.
+
+  (* "every predicate" read operationally: a Go predicate may be a closure with state of its own.  The in-place
+     loop then equals ONE ordered pass that offers each visible element to the predicate exactly once
+     ([filter_st]: the state is threaded element by element); the final predicate state is part of the result.
+     C12_filter is the state-less case ([filter_st_pure]). *)
+  Theorem C12_filter_stateful {St : Type} (keep : St -> A -> bool * St) (st : St) (b : list A) len :
+    len <= length b ->
+    let l := firstn len b in
+    let r := fst (filter_st keep st l) in
+    filter_in_place_st zero keep st b len =
+      Some (r ++ repeat zero (len - length r) ++ skipn len b, length r, snd (filter_st keep st l)).
+  Proof. exact (filter_st_spec zero keep st b len). Qed.
 
   Theorem C12_push (s v : list A) : push s v = v ++ s.
   Proof. exact (push_spec s v). Qed.
@@ -116,6 +128,7 @@ Print Assumptions C12_remove_visible.
 Print Assumptions C12_cut.
 Print Assumptions C12_insert.
 Print Assumptions C12_filter.
+Print Assumptions C12_filter_stateful.
 Print Assumptions C12_push.
 Print Assumptions C12_pop.
 Print Assumptions C12_distinct.
